@@ -99,6 +99,8 @@ def c07(ctx: Ctx) -> None:
     RP.rule_status_table(ctx, P + "reduce_polytope")
     RP.rule_lp_compare(ctx, P + "reduce_polytope", tolerance_rule=False, require_boundary=False)
     RP.rule_lp_objective(ctx, P + "reduce_polytope")
+    RP.rule_matrix_provenance(ctx, P + "reduce_polytope")
+    RS.rule_eq(ctx)
     RP.rule_simplify_wiring(ctx)
     RP.rule_polytope_roundtrip(ctx)
     RA.rule_constructor(ctx, RA.POLY)
@@ -190,6 +192,7 @@ def c03(ctx: Ctx) -> None:
     RP.rule_status_table(ctx, P + "is_polytope_empty")
     RP.rule_lp_compare(ctx, P + "verify_polytope_containment")
     RP.rule_lp_objective(ctx, P + "verify_polytope_containment")
+    RP.rule_matrix_provenance(ctx, P + "verify_polytope_containment")
     RP.rule_lp_bounds(ctx)
     RA.rule_tl_operators(ctx)
     RA.rule_refines_shape(ctx, RA.GENERIC, "refines", RA.EXPECTED_REFINES, True)
